@@ -93,6 +93,10 @@ structure Cfg where
   n : Nat := 0
   a : Int := 0
   b : Int := 0
+  /-- assert that buffers arrive in source order ACROSS buffers (always on, except when the driver
+      classifies a rejected `BufferWithTimeOrCount` trace: see `Drivers/Timed.lean`, known finding
+      "unlock-then-emit window") -/
+  xorder : Bool := true
 deriving Repr, Inhabited
 
 /-- what the downstream gate (`subscriber.go:176-241`, `observer.go:107-140`) lets through of a
@@ -110,6 +114,17 @@ def cutAt : Option Time → List Ev → List Ev
 
 /-- what reaches the downstream observer of a list of delivery attempts -/
 def down (unsub : Option Time) (attempts : List Ev) : List Ev := cutAt unsub (gateT attempts)
+
+/-- How many further ticks the `select` loop of `Interval` / `IntervalWithInitial` / `Timer` may take
+    once `ctx.Done()` is ready, before it takes `ctx.Done()`: Go's `select` chooses uniformly among
+    the ready cases, so `m` further ticks have probability at most `2^-m` even if a tick is ready at
+    every iteration (which itself needs every iteration to last a whole period). The delivery that was
+    already under way when the cancellation returned is included. This constant is the second (and
+    last) assumption about the environment, used only for "silent after cancellation". -/
+def cancelSlack : Nat := 8
+
+/-- deliveries / attempts that begin after instant `c` -/
+def lateCount (c : Time) (l : List Ev) : Nat := (l.filter (fun e => decide (c < e.t0))).length
 
 def cutOf : Option Time → Cut
   | none => .none
@@ -218,6 +233,8 @@ def intervalTrace (r : IntervalRun) : TimedTrace :=
 structure IntervalWF (r : IntervalRun) : Prop where
   neverEarly : ∀ k t, r.ticks[k]? = some t → r.sub + (k + 1) * r.p ≤ t
   stopLate : ∀ c x, r.stop = some (c, x) → c ≤ x
+  /-- once cancelled, the loop takes at most `cancelSlack` more ticks before it takes `ctx.Done()` -/
+  selectFair : ∀ c x, r.stop = some (c, x) → (r.ticks.filter (fun t => decide (c < t))).length ≤ cancelSlack
 
 /-! ### Timer (`operator_creation.go:59-79`): `select` over `timer.C` and `ctx.Done()` inside Subscribe. -/
 
@@ -271,6 +288,7 @@ def rangeTrace (r : RangeRun) : TimedTrace :=
 structure RangeWF (r : RangeRun) : Prop where
   neverEarly : ∀ k t, r.ticks[k]? = some t → r.sub + (k + 1) * r.p ≤ t
   stopLate : ∀ c x, r.stop = some (c, x) → c ≤ x
+  selectFair : ∀ c x, r.stop = some (c, x) → (r.ticks.filter (fun t => decide (c < t))).length ≤ cancelSlack
 
 /-! ### IntervalWithInitial (`operator_creation.go:122-172`)
 
